@@ -203,6 +203,8 @@ enum Prop {
     C03,
     C10,
     C11,
+    /// second part of the C18 check: the key material in the replies of a channel's whole request history
+    C18,
 }
 
 fn make_channel_handler(node: &Arc<Node>, version: u32, peer_id: [u8; 33], dbid: u64) -> ChannelHandler {
@@ -265,11 +267,14 @@ struct Outcome {
     /// the revocation secret presented, whatever the reply was
     cp_revocation_attempt: Option<(u64, [u8; 32])>,
     cp_sign_attempt: Option<(u64, PublicKey)>,
+    /// key material in the reply together with the commitment number it was asked for:
+    /// (where it came from, commitment number, 32-byte secret or 33-byte point)
+    key_claims: Vec<(&'static str, u64, Vec<u8>)>,
 }
 
 impl Outcome {
     fn new(res: Res) -> Outcome {
-        Outcome { res, secrets: vec![], holder_sig: None, recovery_txid: None, valid_submission: None, cp_sign: None, cp_revocation: None, redundant: None, closed_sig: false, valid_attempt: None, cp_revocation_attempt: None, cp_sign_attempt: None }
+        Outcome { res, secrets: vec![], holder_sig: None, recovery_txid: None, valid_submission: None, cp_sign: None, cp_revocation: None, redundant: None, closed_sig: false, valid_attempt: None, cp_revocation_attempt: None, cp_sign_attempt: None, key_claims: vec![] }
     }
 }
 
@@ -407,6 +412,7 @@ impl Hist {
                     let mut o = Outcome::new(res);
                     if let Some(Some(s)) = v {
                         o.secrets.push(s.secret_bytes());
+                        o.key_claims.push(("get_per_commitment_secret_or_none", n, s.secret_bytes().to_vec()));
                     }
                     o
                 } else {
@@ -415,6 +421,7 @@ impl Hist {
                     let mut o = Outcome::new(res);
                     if let Some(s) = v {
                         o.secrets.push(s.secret_bytes());
+                        o.key_claims.push(("get_per_commitment_secret", n, s.secret_bytes().to_vec()));
                     }
                     o
                 }
@@ -696,8 +703,10 @@ impl Hist {
                 let mut o = Outcome::new(res);
                 if let Some(b) = reply {
                     if let Some(rep) = b.as_any().downcast_ref::<msgs::ValidateCommitmentTxReply>() {
+                        o.key_claims.push(("ValidateCommitmentTxReply.next_per_commitment_point", n.wrapping_add(1), rep.next_per_commitment_point.0.to_vec()));
                         if let Some(s) = &rep.old_commitment_secret {
                             o.secrets.push(s.0);
+                            o.key_claims.push(("ValidateCommitmentTxReply.old_commitment_secret", n.wrapping_sub(1), s.0.to_vec()));
                         }
                     }
                 }
@@ -720,8 +729,12 @@ impl Hist {
                 let (r, _) = self.world.request(|node| report::catch(|| node.with_channel(&id, |ch| ch.revoke_previous_holder_commitment(n))));
                 let (res, v) = status_res(r);
                 let mut o = Outcome::new(res);
-                if let Some((_, Some(s))) = v {
-                    o.secrets.push(s.secret_bytes());
+                if let Some((p, s)) = v {
+                    o.key_claims.push(("revoke_previous_holder_commitment.point", n.wrapping_add(1), p.serialize().to_vec()));
+                    if let Some(s) = s {
+                        o.secrets.push(s.secret_bytes());
+                        o.key_claims.push(("revoke_previous_holder_commitment.secret", n.wrapping_sub(1), s.secret_bytes().to_vec()));
+                    }
                 }
                 o
             }
@@ -734,6 +747,8 @@ impl Hist {
                 if let Some(b) = reply {
                     if let Some(rep) = b.as_any().downcast_ref::<msgs::RevokeCommitmentTxReply>() {
                         o.secrets.push(rep.old_commitment_secret.0);
+                        o.key_claims.push(("RevokeCommitmentTxReply.old_commitment_secret", n.wrapping_sub(1), rep.old_commitment_secret.0.to_vec()));
+                        o.key_claims.push(("RevokeCommitmentTxReply.next_per_commitment_point", n.wrapping_add(1), rep.next_per_commitment_point.0.to_vec()));
                     }
                 }
                 o
@@ -746,7 +761,12 @@ impl Hist {
         match api {
             Api::Direct | Api::Phase1 => {
                 let (r, _) = self.world.request(|node| report::catch(|| node.with_channel_base(&id, |b| b.get_per_commitment_point(n))));
-                Outcome::new(status_res(r).0)
+                let (res, v) = status_res(r);
+                let mut o = Outcome::new(res);
+                if let Some(p) = v {
+                    o.key_claims.push(("get_per_commitment_point", n, p.serialize().to_vec()));
+                }
+                o
             }
             Api::Handler(v) => {
                 let h = make_channel_handler(&self.world.node, v, self.chans[c].m.peer_id, self.chans[c].m.dbid);
@@ -756,8 +776,10 @@ impl Hist {
                 let mut o = Outcome::new(res);
                 if let Some(b) = reply {
                     if let Some(rep) = b.as_any().downcast_ref::<msgs::GetPerCommitmentPointReply>() {
+                        o.key_claims.push(("GetPerCommitmentPointReply.point", n, rep.point.0.to_vec()));
                         if let Some(s) = &rep.secret {
                             o.secrets.push(s.0);
+                            o.key_claims.push(("GetPerCommitmentPointReply.secret", n.wrapping_sub(2), s.0.to_vec()));
                         }
                     }
                 }
@@ -1135,6 +1157,39 @@ fn monitors(h: &mut Hist, r: &mut Report, cli: &Cli, prop: Prop, op: &Op, out: &
         None => return,
     };
     let secp = h.secp.clone();
+    // ---- keys are a function of (seed, channel id, commitment number): every secret and point in a reply is
+    // the value of that function at the number the reply stands for (own derivation, oracle.rs)
+    for (what, n, bytes) in &out.key_claims {
+        let ch = &h.chans[c];
+        let seed = match ch.m.holder_commitment_seed {
+            Some(s) => s,
+            None => continue,
+        };
+        if *n >= (1u64 << 48) {
+            r.count("keyfn.number_out_of_range_not_judged");
+            continue;
+        }
+        let want_secret = oracle::commitment_secret(&seed, *n);
+        let ok = if bytes.len() == 32 {
+            bytes[..] == want_secret[..]
+        } else {
+            let sk = SecretKey::from_slice(&want_secret).unwrap();
+            bytes[..] == PublicKey::from_secret_key(&secp, &sk).serialize()[..]
+        };
+        r.count("keyfn.reply_values_checked");
+        if prop == Prop::C18 {
+            r.distinct_hash(fnv_str(&format!("keyfn:{}:{}:{}", what, ch.ready, h.world.restarts.min(2))));
+        }
+        if !ok {
+            if prop == Prop::C18 {
+                let sig = format!("keys:reply-value-is-not-the-one-for-the-requested-number:{}", what);
+                r.violation(&sig, witness(h, cli, json!({"op": format!("{:?}", op), "field": what, "stands_for_commitment_number": n, "got": hex::encode(bytes),
+                    "is_the_value_for_number": oracle::identify_secret(&seed, &{ let mut a = [0u8; 32]; if bytes.len() == 32 { a.copy_from_slice(bytes) }; a }, n + 80) })));
+            } else {
+                r.count("cross.c18");
+            }
+        }
+    }
     // ---- ghost update: validated submissions
     if let Some((n, content)) = &out.valid_submission {
         h.chans[c].g.validated.insert(*n, content.clone());
@@ -1669,7 +1724,7 @@ fn run_history(rng: &mut Rng, r: &mut Report, cli: &Cli, prop: Prop, shard: usiz
             c11_check(&mut h, r, cli, &op, &out);
         }
         // distinct situations for C01-C03: (kind, api, relation of n to counter, outcome class)
-        if matches!(prop, Prop::C01 | Prop::C02 | Prop::C03) {
+        if matches!(prop, Prop::C01 | Prop::C02 | Prop::C03 | Prop::C18) {
             r.distinct_hash(fnv_str(&format!("{}:{}:{}", kind, op_api(&op), out.res.tag())));
         }
     }
@@ -1692,6 +1747,7 @@ fn main() {
         "C03" => Prop::C03,
         "C10" => Prop::C10,
         "C11" => Prop::C11,
+        "C18" => Prop::C18,
         other => {
             println!("INCONCLUSIVE property={} not served by the chan driver", other);
             std::process::exit(2);
@@ -1740,9 +1796,13 @@ fn main() {
         Prop::C11 => {
             report.require("c11.crash_points", 1000);
         }
+        Prop::C18 => {
+            report.require("keyfn.reply_values_checked", 2000);
+        }
     }
     let (level, rule) = match prop {
         Prop::C11 => ("fault_enumeration", "every step of every generated request history is a crash point: after each request a second signer is restored from a deep copy of the store and compared label by label (per-channel EnforcementState, setup, ids; tracker tip/height/headers/listener monitor states; allowlist; approved invoices; dbid high-water mark) with the running one. distinct = (request kind, api, outcome tag)"),
+        Prop::C18 => ("exploration", "the C01 request histories (validate/revoke/get-point/get-secret incl. stale retries and extremes, protocol versions 4/5/6 and the direct API, restarts, storage-fault episodes): every per-commitment secret and point in a reply (revoke and old-protocol validate replies: secret n-1 and point n+1; get-point: point n and, before protocol 6, secret n-2; get-secret: secret n) must be the harness's own derivation from (seed, channel id) at the commitment number the reply stands for. distinct = (reply field, channel ready?, restarts so far)"),
         Prop::C10 => ("exploration", "request histories (valid and invalid requests at handler protocol versions 4/5/6 and direct API, node-level requests, restarts; every third history on the cloud-staged store in the daemon's enter/prepare/commit cycle); a full snapshot (all channels' EnforcementState, node state entry with payments and allowlist, tracker entry, store dump) is taken before every request and compared after every refused one. distinct = (request kind, api, error tag)"),
         _ => ("exploration", "seeded request histories on 1-2 channels: validate/revoke/activate/get-point/get-secret/sign (phase2, recovery, redundant)/sign-counterparty/validate-revocation/mutual-close/restart through ChannelHandler at protocol versions 4, 5, 6 and the direct Channel API, commitment numbers drawn relative to the live counters plus extremes, valid and six kinds of invalid counterparty signatures, right/wrong/stale secrets and points. Ghost state is updated only from replies; disclosed secrets are attributed to commitment numbers by an independent BOLT-3 derivation from the node seed. distinct = (request kind, api, outcome tag) plus monitor-specific (disclosure/sign/revocation situation) tuples"),
     };
